@@ -151,6 +151,9 @@ class Env(dict):
         lets = self.contract.lets
         if key in lets:
             return eval(_compile(lets[key]), self)
+        nat = getattr(self.contract, "natives", None)
+        if nat and key in nat:
+            return nat[key]
         import builtins
 
         if hasattr(builtins, key):
@@ -214,6 +217,7 @@ def check_call(contract, fn, args, kwargs=None, argnames=None, universe=None, ch
         raise ContractViolation("raises", f"no {name} escapes", repr(e))
     post_bind = dict(bindings)
     post_bind["result"] = result
+    old_env["result"] = result  # visible (by value) inside old(...)
     post_bind["__old__"] = __old__
     post_bind["fresh_ref"] = lambda x: id(x) not in ids_before
     for post in list(contract.ensures) + list(contract.ensures_rt):
